@@ -50,7 +50,7 @@ pub struct MomentumParams {
 /// given by
 ///
 /// ```notrust
-/// p_market = demand * tanh(scale * M) / n
+/// p_market = |demand * tanh(scale * M)| / n
 /// ```
 /// where `n` is the number of agents. The probability of
 /// placing a limit order is then given by
@@ -153,7 +153,7 @@ impl Agent for MomentumAgent {
             Some(p) => {
                 let m =
                     self.momentum * (1.0 - self.params.decay) + self.params.decay * (mid_price - p);
-                let p = self.params.demand * f64::tanh(self.params.scale * m) / self.n;
+                let p = (self.params.demand * f64::tanh(self.params.scale * m) / self.n).abs();
                 (m, p)
             }
             None => (0.0, 0.0),
@@ -224,7 +224,7 @@ impl Agent for MomentumAgent {
 /// given by
 ///
 /// ```notrust
-/// p_market = demand * tanh(scale * M) / n
+/// p_market = |demand * tanh(scale * M)| / n
 /// ```
 /// where `n` is the number of agents. The probability of
 /// placing a limit order is then given by
@@ -339,7 +339,7 @@ impl MarketAgent for MomentumMarketAgent {
             Some(p) => {
                 let m =
                     self.momentum * (1.0 - self.params.decay) + self.params.decay * (mid_price - p);
-                let p = self.params.demand * f64::tanh(self.params.scale * m) / self.n;
+                let p = (self.params.demand * f64::tanh(self.params.scale * m) / self.n).abs();
                 (m, p)
             }
             None => (0.0, 0.0),
